@@ -225,7 +225,7 @@ fn strat(id: CodecId, max: usize) -> BoxedStrategy<Case> {
 pub fn run(ctx: &mut Ctx) {
     let max = ctx.pick(120, 600);
     for id in ALL_CODECS {
-        let cases = ctx.cases(1500, 10);
+        let cases = ctx.cases(900, 12);
         ctx.forall(&format!("iters/{}", id.name()), cases, strat(id, max), dispatch);
     }
     // long sequences (thresholds of fast paths, many words)
